@@ -53,14 +53,28 @@ void thread1(void){ r[2] = parsec_hash_table_remove(&ht, (parsec_key_t)KEY1); do
 void setup(void){ table_init(0); }
 void thread0(void){ find_or_insert(0, &E0, (parsec_key_t)KEY0); done[0] = 1; }
 void thread1(void){ find_or_insert(1, &E3, (parsec_key_t)KEY3); done[1] = 1; }
-#elif SCEN == 6 /* old L0 = {k0,k2}, top L1 empty.  T0: remove(k0)   T1: remove(k0); find(k2) */
+#elif SCEN == 6 /* old L0 = {k0,k2}, top L1 empty.  T0: remove(k0)   T1: remove(k0) */
 void setup(void){ table_init(1); parsec_hash_table_insert(&ht, &E0.hi); parsec_hash_table_insert(&ht, &E2.hi); }
 void thread0(void){ r[0] = parsec_hash_table_remove(&ht, (parsec_key_t)KEY0); done[0] = 1; }
-void thread1(void){ r[2] = parsec_hash_table_remove(&ht, (parsec_key_t)KEY0); r[3] = parsec_hash_table_find(&ht, (parsec_key_t)KEY2); done[1] = 1; }
+void thread1(void){ r[2] = parsec_hash_table_remove(&ht, (parsec_key_t)KEY0); done[1] = 1; }
 #elif SCEN == 7 /* L0 = {k0}, hint 1.  T0: insert(k1) -> resize   T1: insert(k2) -> resize (both collide in the same bucket) */
 void setup(void){ table_init(1); parsec_hash_table_insert(&ht, &E0.hi); }
 void thread0(void){ parsec_hash_table_insert(&ht, &E1.hi); done[0] = 1; }
 void thread1(void){ parsec_hash_table_insert(&ht, &E2.hi); r[3] = parsec_hash_table_find(&ht, (parsec_key_t)KEY0); done[1] = 1; }
+#elif SCEN == 8 || SCEN == 9
+/* L0 = {k0}, hint 1.  The FIRST half of a colliding insert through the handle API (lock_bucket_handle(k1); nolock_insert_handle)
+ * is done by setup on behalf of thread 0, which therefore starts holding the table read lock and the bucket lock;
+ * T0: unlock_bucket_handle (bucket length 2 > 1: unlock, rdunlock, wrlock, re-check, RESIZE, wrunlock)
+ * T1: find(k0) (8) / remove(k0) (9): blocks on the bucket lock, then races with the pending resize. */
+static parsec_key_handle_t kh0;
+void setup(void){ table_init(1); parsec_hash_table_insert(&ht, &E0.hi);
+    parsec_hash_table_lock_bucket_handle(&ht, (parsec_key_t)KEY1, &kh0); parsec_hash_table_nolock_insert_handle(&ht, &kh0, &E1.hi); }
+void thread0(void){ parsec_hash_table_unlock_bucket_handle(&ht, &kh0); done[0] = 1; }
+#if SCEN == 8
+void thread1(void){ r[2] = parsec_hash_table_find(&ht, (parsec_key_t)KEY0); done[1] = 1; }
+#else
+void thread1(void){ r[2] = parsec_hash_table_remove(&ht, (parsec_key_t)KEY0); done[1] = 1; }
+#endif
 #endif
 
 void check(void)
@@ -107,9 +121,8 @@ void check(void)
     if(ins[0]) VWITNESS("T0 inserted");
 #elif SCEN == 6
     VASSERTM((r[0] == &E0) != (r[2] == &E0) && (r[0] == NULL || r[0] == &E0) && (r[2] == NULL || r[2] == &E0), "exactly one of two racing removes gets the element, the other NULL");
-    VASSERTM(r[3] == &E2, "k2 (same old bucket) stays findable");
-    VASSERTM(a_cnt[0] == 0 && a_cnt[2] == 1 && a_loc[2] == 1 && a_cnt[1] == 0 && a_cnt[3] == 0, "final contents = {k2}, migrated to the top");
-    VASSERTM(a_top == 1 && a_lk[0] == 0, "old table emptied and unlinked");
+    VASSERTM(a_cnt[0] == 0 && a_cnt[2] == 1 && a_loc[2] == 0 && a_cnt[1] == 0 && a_cnt[3] == 0, "final contents = {k2}, untouched in the old table");
+    VASSERTM(a_top == 1 && a_lk[0] == 1, "the old table still holds k2: stays linked");
     if(r[2] == &E0) VWITNESS("T1 won the remove");
     if(r[0] == &E0) VWITNESS("T0 won the remove");
 #elif SCEN == 7
@@ -118,5 +131,17 @@ void check(void)
     VASSERTM(a_top == 1, "exactly one resize (the second resizer sees rw_hash changed, or its bucket in the new table is short)");
     if(a_loc[1] == 0 && a_loc[2] == 0) VWITNESS("both colliding inserts landed before the single resize");
     if(a_loc[2] == 1) VWITNESS("k2 inserted into the new table");
+#elif SCEN == 8 || SCEN == 9
+    VASSERTM(r[2] == &E0, "k0 is found / removed whatever the pending resize does");
+    VASSERTM(a_top == 1 && a_lk[0] == 1, "the insert that exceeded the hint resized exactly once; the old table (still holding k1) stays linked");
+    VASSERTM(a_cnt[1] == 1 && a_loc[1] == 0 && a_cnt[2] == 0 && a_cnt[3] == 0, "k1 stays where it was inserted");
+#if SCEN == 8
+    VASSERTM(a_cnt[0] == 1, "final contents = {k0, k1}");
+    if(a_loc[0] == 1) VWITNESS("find ran after the resize: k0 migrated to the new table");
+    if(a_loc[0] == 0) VWITNESS("find ran before the resize: k0 still in the old table");
+#else
+    VASSERTM(a_cnt[0] == 0, "final contents = {k1}");
+    VWITNESS("removed around the resize");
+#endif
 #endif
 }
